@@ -350,6 +350,8 @@ PROPS["C13"] = {
         H("c13_fpr_input_v4_0", "c13_fpr", "thorough", 600, "v4 fingerprint input, empty body", FPR_F, "body 0"),
         H("c13_fpr_input_subkey_v4", "c13_fpr", "quick", 600, "v4 public subkey: same 0x99 framing", FPR_F, "body 3"),
         H("c13_keyid_from_fingerprint", "c13_fpr", "quick", 600, "Fingerprint accessors", FPR_F, "20/32 symbolic bytes"),
+        H("c13_pkesk_match_v3", "c13_fpr", "quick", 600, "v3 PKESK recipient matching: key id equal or wildcard; unknown versions never match", ["packet::PublicKeyEncryptedSessionKey::match_identity"], "8+8 symbolic octets"),
+        H("c13_pkesk_match_v6", "c13_fpr", "quick", 600, "v6 PKESK recipient matching: fingerprint equal or absent", ["packet::PublicKeyEncryptedSessionKey::match_identity"], "32+32 symbolic octets"),
     ],
 }
 
@@ -421,4 +423,36 @@ PROPS["C19"] = {
         H("c09_take_bytes_3", "c09_io", "quick", 900, "take_bytes: all-or-error, consumes exactly the octets returned", IO_F, "<=4 bytes"),
         H("c09_read_arr_4", "c09_io", "quick", 600, "read_arr: all-or-error", IO_F, "<=5 bytes"),
     ],
+}
+
+# ------------------------------------------------------------------------------------------------
+def _pick(pid, names, tier_map=None):
+    out = []
+    for h in PROPS[pid]["harnesses"]:
+        if h["name"] in names:
+            out.append(dict(h, tier=(tier_map or {}).get(h["name"], h["tier"])))
+    return out
+
+
+PROPS["C06"] = {
+    "inject": [("src/packet/signature/types.rs", "c11_sig"), ("src/lib.rs", "c14_hasher"), ("src/normalize_lines.rs", "c14_norm")],
+    "substitutions": PROPS["C14"]["substitutions"],
+    "mem_gb": 14,
+    "level_text": "Sign-side and verify-side computations are shown equal by bounded model checking of each side against the same independent "
+                  "RFC 9580 reference: the digest a sign_* call hands to the key equals the reference transcript, and a signature "
+                  "carrying the reference digest is accepted by the corresponding verify_* call, for every value of the symbolic fields; "
+                  "text canonicalisation on the signing side (streaming hasher) and on the verifying side (replace_newlines / "
+                  "NormalizedReader in a scaled build) each equal the same byte-at-a-time reference.",
+    "level_note": "Covers the low-level signature API (SignatureConfig::sign*, Signature::verify*) with ideal hash and signature primitives. "
+                  "Text-mode Signature::verify end-to-end (NormalizedReader + io::copy through an 8 KiB buffer), DetachedSignature, the "
+                  "cleartext framework and MessageBuilder/Message::verify are outside: Kani cannot decide them (DESIGN.md 0.6).",
+    "bounds": "as C11 and C14",
+    "outside": "DetachedSignature wrappers, cleartext framework (finding: see DESIGN 0.5/notes), inline-signed messages, serialise+armor+parse in between",
+    "assumptions": SIG_ASSUME + PROPS["C14"]["assumptions"],
+    "harnesses": _pick("C11", {"c11_sign_data_v4_2", "c11_verify_data_v4_2", "c11_sign_data_v6_2", "c11_verify_data_v6_2", "c11_sign_key_v4", "c11_verify_key_v6",
+                               "c11_sign_subkey_binding_v4", "c11_verify_subkey_binding_v6", "c11_sign_primary_binding_v6", "c11_verify_primary_binding_v4",
+                               "c11_sign_cert_v4_positive", "c11_verify_cert_v4_positive"},
+                       {"c11_sign_data_v6_2": "thorough", "c11_sign_primary_binding_v6": "thorough", "c11_verify_primary_binding_v4": "thorough",
+                        "c11_sign_subkey_binding_v4": "thorough", "c11_verify_subkey_binding_v6": "thorough"})
+                 + _pick("C14", {"c14_hasher_step_3", "c14_hasher_two_1_2", "c14_replace_2", "c14_reader_4", "c14_reader_5"}),
 }
